@@ -81,6 +81,12 @@ def rdf_filter(doc):
                     names.append(v[1])
                 if v[0] in ("float", "other") or (v[0] == "lit" and v[3] is None):
                     return "R9-value-kind"
+            if t in ELEMENT:
+                for v in d.get(P + "type", []):
+                    if v[0] == "qn" and v[1] in ELEMENT:
+                        # 'x a prov:Entity' is the very triple that states the record's kind: as a prov:type
+                        # value it is the same statement (same kind) or a second kind for the identifier (R3)
+                        return "R3b-element-typed-with-a-base-class"
             if t not in ELEMENT:
                 local = t[len(P):]
                 if local == "Mention":
@@ -181,7 +187,9 @@ def rdf_cases():
     extras = [(), (("at", ("P", "role", ("q", "prov")), "s_a"),), (("at", nm("k"), "s_a"),), (("at", nm("k"), "i_2"),),
               (("at", ("P", "type", ("q", "prov")), "q_exA"),), (("at", ("P", "location", ("q", "prov")), "s_a"),),
               (("at", ("P", "label", ("q", "prov")), "s_a"),), (("at", nm("k"), "d_530"),), (("at", nm("k"), "u_plain"),),
-              (("at", nm("k"), "l_lang"),), (("at", nm("k"), "b_T"),)]
+              (("at", nm("k"), "l_lang"),), (("at", nm("k"), "b_T"),), (("at", nm("k"), "i_0"),),
+              (("at", nm("k"), "b_F"),), (("at", nm("k"), "s_empty"),), (("at", nm("k"), "i_1"), ("at", nm("k2"), "b_T")),
+              (("at", nm("k"), "b_F"), ("at", nm("k2"), "i_0"))]
     for kind, mask in sweeps.shapes():
         if kind not in RELATIONS:
             continue
@@ -199,6 +207,17 @@ def rdf_cases():
             r1 = sweeps.shape_ops("D", S("ex"), "A", k1, m1, id1, "r1")
             r2 = sweeps.shape_ops("D", S("ex"), "A", k2, m2, id2, "r2")
             out.append(("rdf|pair|%s+%s" % (k1, k2), pre + (r1, r2)))
+    # equal-but-different-kind values on different records of one document (and its bundle)
+    for a, b in sweeps.ACROSS:
+        if a.startswith("f_") or b.startswith("f_"):
+            continue  # floats are outside the claimed value kinds (R9)
+        for k1, m1 in rels[:3] + [("entity", ())]:
+            r1 = sweeps.shape_ops("D", S("ex"), "A", k1, m1, "id", "r1")
+            r2 = sweeps.shape_ops("D", S("ex"), "A", "entity", (), "id", "r2")
+            out.append(("rdf|across-records|%s" % k1, pre + (r1, ("at", nm("k"), a), r2, ("at", nm("k"), b))))
+            out.append(("rdf|across-doc-and-bundle|%s" % k1,
+                        pre + (r1, ("at", nm("k"), a), ("bun", "B1", nm("b1")),
+                               sweeps.shape_ops("B1", S("ex"), "A", "entity", (), "id", "r2"), ("at", nm("k"), b))))
     # bundles
     b1 = ("bun", "B1", nm("b1"))
     for kind, mask in rels:
